@@ -199,11 +199,37 @@ def basename_contract(o, p, r):
                   o.or_(o.eq(r, p), o.suf(o.lit(b'/'), o.head(p, k))))
 
 
-def dirname_shape(o, p, r):
-    """r = posixpath.dirname(p): a prefix of p that stops before the basename (trailing slashes stripped unless
-    it consists of slashes only) - only the shape the symlink contract needs"""
-    return o.and_(o.pre(r, p), o.imp(o.not_(o.has(p, o.lit(b'/'))), o.eq(r, o.lit(b''))),
-                  o.imp(o.pre(o.lit(b'/'), p), o.pre(o.lit(b'/'), r)))
+def dirname_shape(o, p, r, b=None):
+    """r = posixpath.dirname(p), b = posixpath.basename(p): r is what precedes the basename with its trailing slashes
+    stripped unless it consists of slashes only.  Exact when at most one slash precedes the basename (in particular
+    dirname(b'/a/link/') == b'/a/link'); otherwise only the shape (a prefix of p)."""
+    conj = [o.pre(r, p), o.imp(o.not_(o.has(p, o.lit(b'/'))), o.eq(r, o.lit(b''))),
+            o.imp(o.pre(o.lit(b'/'), p), o.pre(o.lit(b'/'), r))]
+    if b is not None:
+        head0 = o.head(p, o.len(p) - o.len(b))
+        conj += [o.pre(r, head0),
+                 o.imp(o.eq(head0, o.lit(b'')), o.eq(r, o.lit(b''))),
+                 o.imp(o.eq(head0, o.lit(b'/')), o.eq(r, o.lit(b'/'))),
+                 o.imp(o.and_(o.suf(o.lit(b'/'), head0), o.not_(o.suf(o.lit(b'//'), head0)),
+                              o.ne(head0, o.lit(b'/'))), o.eq(head0, o.cat(r, o.lit(b'/'))))]
+    return o.and_(*conj)
+
+
+def maprel_contract(o, m, d, b):
+    """Algebra of the externals behind SFTPServer.map_path.  For a client path p let
+         maprel(p) = normpath(join(b'/', p)) without its leading slashes   (the root-relative normal form),
+         m = maprel(p),  d = maprel(dirname(normpath(p))),  b = basename(m).
+    Then m is empty or a clean component list, and m is d, a separator and the separator-free b (just b when d is
+    empty): normalising and then taking the directory commutes with mapping - also for trailing slashes, '//' and
+    '.' components in p."""
+    return o.and_(o.or_(o.eq(m, o.lit(b'')), clean(o, m)), o.or_(o.eq(d, o.lit(b'')), clean(o, d)),
+                  o.not_(o.has(b, o.lit(b'/'))),
+                  o.or_(o.and_(o.eq(d, o.lit(b'')), o.eq(m, b)),
+                        o.and_(o.ne(d, o.lit(b'')), o.eq(m, o.cat(d, o.lit(b'/'), b)))))
+
+
+def real_maprel(p):
+    return posixpath.normpath(posixpath.join(b'/', p)).lstrip(b'/')
 
 
 # ------------------------------------------------------------------------------------------- bounded validation
@@ -240,7 +266,7 @@ def validate_externals(maxlen=8, join_maxlen=4, alphabet=b'/.a'):
     for p in all_strings(alphabet, maxlen):
         n += 1
         if not basename_contract(POps, p, posixpath.basename(p)) or \
-                not dirname_shape(POps, p, posixpath.dirname(p)) or \
+                not dirname_shape(POps, p, posixpath.dirname(p), posixpath.basename(p)) or \
                 posixpath.isabs(p) != p.startswith(b'/'):
             bad.append(repr(p))
         # uniqueness of the basename characterisation: no other suffix satisfies it
@@ -249,6 +275,16 @@ def validate_externals(maxlen=8, join_maxlen=4, alphabet=b'/.a'):
                 bad.append(repr((p, p[k:])))
     out.append({'name': f'assumed-contract posixpath.basename/dirname/isabs vs real, all strings over {alphabet!r} '
                         f'up to length {maxlen}', 'cases': n, 'violations': bad[:5]})
+    bad, n = [], 0
+    for p in all_strings(alphabet, maxlen):
+        n += 1
+        m = real_maprel(p)
+        d = real_maprel(posixpath.dirname(posixpath.normpath(p)))
+        jr = p if p.startswith(b'/') else b'/' + p
+        if not maprel_contract(POps, m, d, posixpath.basename(m)) or _real_npbody(jr) != m:
+            bad.append(repr((p, m, d)))
+    out.append({'name': f'assumed algebra maprel(dirname(normpath(p))) / maprel(p) vs real, all strings over '
+                        f'{alphabet!r} up to length {maxlen}', 'cases': n, 'violations': bad[:5]})
     return out
 
 
@@ -257,6 +293,7 @@ def validate_externals(maxlen=8, join_maxlen=4, alphabet=b'/.a'):
 pp_normpath = z3.Function('pp_normpath', BytesS, BytesS)
 pp_npbody = z3.Function('pp_npbody', BytesS, BytesS)        # normpath(p) without its leading slashes (absolute p)
 pp_joinfold = z3.Function('pp_joinfold', BytesS, z3.SeqSort(BytesS), BytesS)      # posixpath.join(a, *items)
+pp_maprel = z3.Function('pp_maprel', BytesS, BytesS)      # normpath(join(b'/', p)) without its leading slashes
 pp_basename = z3.Function('pp_basename', BytesS, BytesS)
 pp_dirname = z3.Function('pp_dirname', BytesS, BytesS)
 
@@ -403,7 +440,9 @@ def m_dirname(ex, s, args, kw, node):
             continue
         p = vals[0].z
         r = pp_dirname(p)
-        s1.assume(dirname_shape(Z, p, r))
+        b = pp_basename(p)
+        s1.assume(basename_contract(Z, p, b))
+        s1.assume(dirname_shape(Z, p, r, b))
         out.append((s1, VBytes(r)))
     return out
 
@@ -417,6 +456,21 @@ def m_isabs(ex, s, args, kw, node):
         else:
             out.append((s1, VBool(z3.PrefixOf(bytes_const(b'/'), vals[0].z))))
     return out
+
+
+def maprel_def(p):
+    """definition of pp_maprel in terms of the normpath model: the body of normpath(join(b'/', p))"""
+    ab = z3.PrefixOf(bytes_const(b'/'), p)
+    return z3.And(z3.Implies(ab, pp_maprel(p) == pp_npbody(p)),
+                  z3.Implies(z3.Not(ab), pp_maprel(p) == pp_npbody(z3.Concat(bytes_const(b'/'), p))))
+
+
+def maprel_algebra(p):
+    """instance of maprel_contract for the client path p"""
+    m = pp_maprel(p)
+    b = pp_basename(m)
+    d = pp_maprel(pp_dirname(pp_normpath(p)))
+    return z3.And(maprel_contract(Z, m, d, b), basename_contract(Z, m, b))
 
 
 def _real_npbody(p):
@@ -435,6 +489,7 @@ def register():
                          'posixpath.basename': m_basename, 'posixpath.dirname': m_dirname,
                          'posixpath.isabs': m_isabs})
     replay.REAL_IMPLS.update({'pp_joinfold': lambda a, items: posixpath.join(bytes(a), *[bytes(i) for i in items]),
+                              'pp_maprel': lambda p: real_maprel(bytes(p)),
                               'pp_normpath': lambda p: posixpath.normpath(bytes(p)),
                               'pp_npbody': _real_npbody,
                               'pp_basename': lambda p: posixpath.basename(bytes(p)),
